@@ -573,6 +573,16 @@ def leg_m_durations(V, wd, tier):
         raise MachineryError(f"leg M Durations: {res['violated']} / {res['error']}\n" + tlc.counterexample(res, 60))
 
 
+def leg_unbounded_durations(V, wd):
+    """The window-count formulas for ALL positive durations and windows (Apalache, symbolic integers); NotStrict is a false formula that
+    must be refuted (vacuity control)."""
+    detail, done = tlc.apalache("DurationsInt", [("Lemma1", True), ("Lemma2", True), ("NotStrict", False)], wd, timeout=600)
+    V.leg("unbounded", tool="apalache-mc 0.58", module="DurationsInt", obligations=3, discharged=done, detail=detail,
+          checker_cmd="apalache-mc check --inv=Lemma1|Lemma2|NotStrict --length=0 DurationsInt.tla")
+    V.cov["obligations"] = 3
+    V.cov["discharged"] = done
+
+
 FLAG = {"C05": 4, "C06": 5, "C08": 6, "C09": 7}
 
 
@@ -627,6 +637,7 @@ def check(prop, tier, replay=None):
                                    "info": f"second split of a detection starting at {g.start} s (method={meth})"})
     elif prop == "C06":
         leg_m_durations(V, wd, tier)
+        leg_unbounded_durations(V, wd)
         traces += c06_cases(rng, tier, M)
         n = 300 if tier == "quick" else 15000
         for i in range(n):
